@@ -5,7 +5,7 @@ use crate::langs::{self, L};
 use crate::stream::{self, HTok, Occ};
 use crate::vocab;
 use serde_json::json;
-use text2num::LangInterpreter;
+
 
 pub const T: [f64; 10] = [f64::NEG_INFINITY, -1.0, 0.0, 1.0, 5.0, 9.0, 10.0, 1000.0, f64::INFINITY, f64::NAN];
 
@@ -200,6 +200,36 @@ pub fn run(tier: Tier) -> i32 {
                     one_stream(&ctx, acc, l, &lang, syms)
                 }
             }));
+        }
+        // near misses of the linking words (an added or dropped final letter, a plural): ordinary words, so they
+        // break the sequence — unless the result is itself a linking word or a number word
+        {
+            let c = vocab::cls(l);
+            let list = vocab::linking_words(l);
+            let mut near: Vec<String> = vec![];
+            for w in list {
+                let mut cands = vec![format!("{w}s"), format!("{w}e"), format!("{w}n")];
+                if w.chars().count() > 2 {
+                    let mut x = w.to_string();
+                    x.pop();
+                    cands.push(x);
+                }
+                for cand in cands {
+                    let is_num = matches!(guard(|| text2num::text2digits(&cand, &lang)), Ok(Ok(_)));
+                    if !is_num && !list.contains(&cand.as_str()) && cand != l.conj() && cand != l.sep() && !near.contains(&cand) && cand.chars().all(|ch| ch.is_alphabetic()) {
+                        near.push(cand);
+                    }
+                }
+            }
+            for w in &near {
+                let a4: Vec<String> = vec![c.one.clone(), c.unit.clone(), w.clone(), ",".to_string()];
+                total.merge(explore::all_sequences(&a4, 3, |syms, acc| {
+                    if syms.iter().any(|s| s == w) {
+                        one_stream(&ctx, acc, l, &lang, syms)
+                    }
+                }));
+            }
+            alphas.push(json!({"lang": l.code(), "near_misses_of_linking_words": near.len()}));
         }
         // boundary thresholds on short streams of small numbers
         let c = vocab::cls(l);
